@@ -6,6 +6,11 @@ package main
 // Emitter.PC() recorded before the corresponding call, the first bus access of the step must be the opcode
 // fetch at that address, and after the last instruction M / X must equal not IsM16bit / not IsX16bit; an
 // immediate method must panic exactly when its operand size disagrees with the tracked width.
+// A program may contain the emitter's conditional-branch methods (rel8 and label-taking forms): a pilot CPU is stepped
+// while the program is being assembled, and a branch is only emitted when its condition is false in the pilot's
+// current flags (own statement of the conditions, cplCond) -- such a branch is straight-line in the property's sense.
+// Half of the programs are run on the bytes as patched by Finalize (label operands resolved or not), the other half
+// on the placeholders: a branch that is not taken must not care.
 // Tie: every program is also printed (calls, arguments, PC() before each call, refusals, final flags,
 // bytes) so that the check can have Coq replay it on Model/Emitter.v through the regenerated descriptors.
 
@@ -19,7 +24,19 @@ import (
 	"strings"
 
 	"github.com/alttpo/snes/asm"
+	"github.com/alttpo/snes/emulator/cpu65c816"
 )
+
+// conditional branches: which flag, and the value of it under which the branch is TAKEN (WDC instruction set)
+type cplCondT struct {
+	flag  byte
+	taken byte
+}
+
+var cplCond = map[string]cplCondT{
+	"BPL": {'n', 0}, "BMI": {'n', 1}, "BVC": {'v', 0}, "BVS": {'v', 1},
+	"BCC": {'c', 0}, "BCS": {'c', 1}, "BNE": {'z', 0}, "BEQ": {'z', 1},
+}
 
 // mnemonics that are not straight-line (own statement, from the WDC instruction set)
 var cplNotStraight = map[string]bool{
@@ -41,6 +58,7 @@ type cplMethod struct {
 	params   []reflect.Type
 	straight bool
 	hasLabel bool
+	cond     string // mnemonic, for a conditional branch
 	// width requirement by the name convention: 0 none, 8 / 16 operand bits; onX = index registers
 	immBits int
 	onX     bool
@@ -71,6 +89,10 @@ func cplMethods() []cplMethod {
 		}
 		mn := cplMnemonic(m.Name)
 		cm.straight = !cplNotStraight[mn] && !cm.hasLabel
+		if _, ok := cplCond[mn]; ok {
+			cm.cond = mn
+			cm.straight = true // as long as it is not taken
+		}
 		suf := ""
 		if i := strings.IndexByte(m.Name, '_'); i >= 0 {
 			suf = m.Name[i+1:]
@@ -101,7 +123,7 @@ func (m *cplMethod) expectRefused(m16, x16 bool) bool {
 
 // one call of the program
 type cplCall struct {
-	kind    byte // 'I' instruction method, 'S' SetBase, 'R' AssumeREP, 'P' AssumeSEP, 'C' Comment, 'L' Label
+	kind    byte // 'I' instruction method, 'B' instruction method taking a label (args = label id), 'S' SetBase, 'R' AssumeREP, 'P' AssumeSEP, 'C' Comment, 'L' Label
 	name    string
 	args    []int64
 	pc      uint32 // Emitter.PC() before the call
@@ -134,6 +156,8 @@ func cplCallMethod(em *asm.Emitter, m *cplMethod, args []int64) (refused bool, m
 		switch m.params[i].Kind() {
 		case reflect.Int8:
 			v.SetInt(a)
+		case reflect.String:
+			v.SetString(cplLabelName(a))
 		default:
 			v.SetUint(uint64(a))
 		}
@@ -141,6 +165,14 @@ func cplCallMethod(em *asm.Emitter, m *cplMethod, args []int64) (refused bool, m
 	}
 	reflect.ValueOf(em).Method(m.idx).Call(in)
 	return
+}
+
+// label ids: 1.. = labels defined by the program ("l<id>"), 1000.. = forward references ("f<id>")
+func cplLabelName(id int64) string {
+	if id >= 1000 {
+		return fmt.Sprintf("f%d", id)
+	}
+	return fmt.Sprintf("l%d", id)
 }
 
 func cplRandArgs(r *cpuRng, m *cplMethod) []int64 {
@@ -177,10 +209,80 @@ type cplProg struct {
 	nIns    int
 	starts  []uint32
 	finalPC uint32
+	patched []byte // Bytes() after Finalize (label operands patched where the label resolved)
+	finErr  string
+	nBranch int
+}
+
+// the pilot: a cpu65c816 stepped over the program while it is being assembled; its flags decide which
+// conditional branches may be emitted (those whose condition is false)
+type cplPilot struct {
+	r      *run65
+	none   byte
+	regs   cplRegs
+	mseed  uint32
+	alive  bool
+	loaded int
+	base   uint32
+}
+
+func cplSet65(c *cpu65c816.CPU, base uint32, m0, x0 byte, regs cplRegs, none byte) {
+	c.RK, c.PC = byte(base>>16), uint16(base)
+	c.M, c.X, c.E, c.Interrupt = m0, x0, 0, none
+	c.RA, c.RX, c.RY, c.SP, c.RD, c.RDBR = regs.ra, regs.rx, regs.ry, regs.sp, regs.rd, regs.dbr
+	c.RAl, c.RAh, c.RXl, c.RYl = byte(regs.ra), byte(regs.ra>>8), byte(regs.rx), byte(regs.ry)
+	if x0 == 1 {
+		c.RX, c.RY = c.RX&0xFF, c.RY&0xFF
+	}
+	c.C, c.Z, c.I, c.D, c.V, c.N = regs.c, regs.z, regs.i, regs.d, regs.v, regs.n
+	c.Stopped, c.OnWDM, c.OnPC = false, nil, nil
+}
+
+func (pl *cplPilot) start(base uint32, m0, x0 byte) {
+	pl.r.mem.seed = pl.mseed
+	pl.r.mem.ov = map[uint32]byte{}
+	pl.r.mem.trace = nil
+	pl.base, pl.loaded, pl.alive = base, 0, true
+	cplSet65(pl.r.cpu, base, m0, x0, pl.regs, pl.none)
+}
+
+// step: load what the assembler appended since the last call, execute one instruction
+func (pl *cplPilot) step(code []byte) {
+	if !pl.alive {
+		return
+	}
+	for ; pl.loaded < len(code); pl.loaded++ {
+		pl.r.mem.ov[pl.base+uint32(pl.loaded)] = code[pl.loaded]
+	}
+	defer func() {
+		if e := recover(); e != nil {
+			pl.alive = false
+		}
+	}()
+	pl.r.mem.trace = pl.r.mem.trace[:0]
+	pl.r.cpu.Step()
+}
+
+// notTaken: would this conditional branch fall through in the pilot's current state?
+func (pl *cplPilot) notTaken(mn string) bool {
+	c := pl.r.cpu
+	cd := cplCond[mn]
+	var f byte
+	switch cd.flag {
+	case 'n':
+		f = c.N
+	case 'v':
+		f = c.V
+	case 'c':
+		f = c.C
+	case 'z':
+		f = c.Z
+	}
+	return f != cd.taken
 }
 
 // cplGen assembles one random straight-line program with the real Emitter
-func cplGen(r *cpuRng, id int, ms []cplMethod, straightIdx []int, maxlen int, endAt int) *cplProg {
+func cplGen(r *cpuRng, id int, ms []cplMethod, straightIdx []int, maxlen int, endAt int, pl *cplPilot) *cplProg {
 	p := &cplProg{id: id}
 	nwant := 1 + r.n(maxlen)
 	p.capLen = 4*nwant + r.n(8)
@@ -224,7 +326,16 @@ func cplGen(r *cpuRng, id int, ms []cplMethod, straightIdx []int, maxlen int, en
 		p.x0 = 0
 	}
 	p.base = em.PC()
+	pl.start(p.base, p.m0, p.x0)
 	labels := 0
+	fwd := 1000
+	var fwdUsed []int64
+	var condIdx []int
+	for _, i := range straightIdx {
+		if ms[i].cond != "" {
+			condIdx = append(condIdx, i)
+		}
+	}
 	for p.nIns < nwant {
 		k := r.n(100)
 		switch {
@@ -257,6 +368,7 @@ func cplGen(r *cpuRng, id int, ms []cplMethod, straightIdx []int, maxlen int, en
 			if !c.refused {
 				p.nIns++
 				p.starts = append(p.starts, c.pc)
+				pl.step(em.Bytes())
 			}
 		case k < 30: // a truthful Assume call: it does not change the tracked M / X
 			cur := uint8(em.Flags())
@@ -282,6 +394,48 @@ func cplGen(r *cpuRng, id int, ms []cplMethod, straightIdx []int, maxlen int, en
 			if m.name == "REP" || m.name == "SEP" {
 				continue
 			}
+			if m.cond != "" {
+				// a conditional branch: only one that falls through in the pilot's current state
+				if !pl.alive {
+					continue
+				}
+				var ok []int
+				for _, i := range condIdx {
+					if pl.notTaken(ms[i].cond) {
+						ok = append(ok, i)
+					}
+				}
+				if len(ok) == 0 {
+					continue
+				}
+				m = &ms[ok[r.n(len(ok))]]
+				c := cplCall{kind: 'I', name: m.name, pc: em.PC(), isIns: true}
+				if m.hasLabel {
+					c.kind = 'B'
+					lid := int64(0)
+					if labels > 0 && r.n(2) == 0 {
+						lid = int64(1 + r.n(labels)) // backward reference
+					} else if len(fwdUsed) > 0 && r.n(3) == 0 {
+						lid = fwdUsed[r.n(len(fwdUsed))]
+					} else {
+						lid = int64(fwd)
+						fwd++
+						fwdUsed = append(fwdUsed, lid)
+					}
+					c.args = []int64{lid}
+				} else {
+					c.args = cplRandArgs(r, m)
+				}
+				c.refused, _ = cplCallMethod(em, m, c.args)
+				record(c)
+				if !c.refused {
+					p.nIns++
+					p.nBranch++
+					p.starts = append(p.starts, c.pc)
+					pl.step(em.Bytes())
+				}
+				continue
+			}
 			if m.expectRefused(em.IsM16bit(), em.IsX16bit()) && r.n(100) < 85 {
 				continue // mostly pick calls the assembler accepts; sometimes a wrong-width one (must be refused)
 			}
@@ -291,12 +445,32 @@ func cplGen(r *cpuRng, id int, ms []cplMethod, straightIdx []int, maxlen int, en
 			if !c.refused {
 				p.nIns++
 				p.starts = append(p.starts, c.pc)
+				pl.step(em.Bytes())
 			}
+		}
+	}
+	// most forward references get their label after the last instruction (the others stay unresolved)
+	for _, lid := range fwdUsed {
+		if r.n(4) != 0 {
+			record(cplCall{kind: 'L', args: []int64{lid}, pc: em.PC()})
+			em.Label(cplLabelName(lid))
 		}
 	}
 	p.flags = uint8(em.Flags())
 	p.bytes = append([]byte(nil), em.Bytes()...)
 	p.finalPC = em.PC()
+	// Finalize patches the label operands it can resolve (an error -- unresolved label, branch too far -- leaves the rest)
+	func() {
+		defer func() {
+			if e := recover(); e != nil {
+				p.finErr = fmt.Sprint(e)
+			}
+		}()
+		if err := em.Finalize(); err != nil {
+			p.finErr = err.Error()
+		}
+	}()
+	p.patched = append([]byte(nil), em.Bytes()...)
 	return p
 }
 
@@ -309,7 +483,14 @@ func (p *cplProg) line() string {
 	for i, b := range p.bytes {
 		hx[i] = fmt.Sprint(b)
 	}
-	return fmt.Sprintf("CASE %d cap=%d flags=%d pc=%d calls=%s bytes=%s", p.id, p.capLen, p.flags, p.finalPC, strings.Join(cs, ";"), strings.Join(hx, ","))
+	// positions where Finalize changed a byte (they must all be label operands), as pos:value
+	var df []string
+	for i := range p.patched {
+		if i < len(p.bytes) && p.patched[i] != p.bytes[i] {
+			df = append(df, fmt.Sprintf("%d:%d", i, p.patched[i]))
+		}
+	}
+	return fmt.Sprintf("CASE %d cap=%d flags=%d pc=%d calls=%s bytes=%s patched=%s", p.id, p.capLen, p.flags, p.finalPC, strings.Join(cs, ";"), strings.Join(hx, ","), strings.Join(df, ","))
 }
 
 type cplRegs struct {
@@ -362,10 +543,10 @@ func cplCheckRun(p *cplProg, mem *cpuMem, step func() (panicked bool, msg string
 	return cplOutcome{}
 }
 
-func cplLoad(mem *cpuMem, p *cplProg, seed uint32) {
+func cplLoad(mem *cpuMem, p *cplProg, code []byte, seed uint32) {
 	mem.seed = seed
 	mem.ov = map[uint32]byte{}
-	for i, b := range p.bytes {
+	for i, b := range code {
 		mem.ov[p.base+uint32(i)] = b
 	}
 	mem.trace = nil
@@ -433,21 +614,32 @@ func cplCmd(args []string) int {
 	r65 := newRun65()
 	ralt := newRunAlt()
 	// the value of "no interrupt pending" is what a Step leaves behind
-	cplLoad(r65.mem, &cplProg{bytes: []byte{0xEA}}, 1)
+	cplLoad(r65.mem, &cplProg{}, []byte{0xEA}, 1)
 	r65.cpu.Step()
 	none65 := r65.cpu.Interrupt
-	cplLoad(ralt.mem, &cplProg{bytes: []byte{0xEA}}, 1)
+	cplLoad(ralt.mem, &cplProg{}, []byte{0xEA}, 1)
 	ralt.cpu.Step()
 	noneAlt := ralt.cpu.Interrupt
 	methodHits := map[string]int{}
+	pilot := &cplPilot{r: newRun65(), none: none65}
 	for id := 0; id < *nprog; id++ {
 		r := &cpuRng{s: *seed*1000003 + uint64(id)*7919 + 17}
-		p := cplGen(r, id, ms, straightIdx, *maxlen, -1)
+		// the CPU's initial registers and the memory content are drawn first: the pilot needs them while assembling
+		regs := cplRegs{ra: uint16(r.v16()), rx: uint16(r.v16()), ry: uint16(r.v16()), sp: uint16(r.v16()), rd: uint16(r.v16()), dbr: byte(r.v8()),
+			c: byte(r.n(2)), z: byte(r.n(2)), i: byte(r.n(2)), d: 0, v: byte(r.n(2)), n: byte(r.n(2))}
+		if r.n(3) > 0 {
+			regs.rd &= 0xFF00 // often a page-aligned direct page
+		}
+		mseed := uint32(r.next())
+		usePatched := r.n(2) == 0
+		pilot.regs, pilot.mseed = regs, mseed
+		r1 := *r
+		p := cplGen(r, id, ms, straightIdx, *maxlen, -1, pilot)
 		if id%8 == 5 {
 			// same draws, base chosen so that the last byte of the program is the last byte of the bank
-			r2 := &cpuRng{s: *seed*1000003 + uint64(id)*7919 + 17}
-			p = cplGen(r2, id, ms, straightIdx, *maxlen, len(p.bytes))
-			*r = *r2
+			r2 := r1
+			p = cplGen(&r2, id, ms, straightIdx, *maxlen, len(p.bytes), pilot)
+			*r = r2
 		}
 		if *only >= 0 && id != *only {
 			continue
@@ -475,25 +667,25 @@ func cplCmd(args []string) int {
 		if p.finalPC&0xFFFF == 0 {
 			stats["ends_at_bank_end"]++
 		}
-		regs := cplRegs{ra: uint16(r.v16()), rx: uint16(r.v16()), ry: uint16(r.v16()), sp: uint16(r.v16()), rd: uint16(r.v16()), dbr: byte(r.v8()),
-			c: byte(r.n(2)), z: byte(r.n(2)), i: byte(r.n(2)), d: 0, v: byte(r.n(2)), n: byte(r.n(2))}
-		if r.n(3) > 0 {
-			regs.rd &= 0xFF00 // often a page-aligned direct page
+		stats["branches_not_taken"] += p.nBranch
+		if p.nBranch > 0 {
+			stats["programs_with_branches"]++
 		}
-		mseed := uint32(r.next())
+		code := p.bytes
+		if usePatched {
+			code = p.patched
+			stats["runs_on_finalized_bytes"]++
+			for i := range p.patched {
+				if p.patched[i] != p.bytes[i] {
+					stats["label_operands_patched"]++
+				}
+			}
+		}
 		// cpu65c816
 		{
-			cplLoad(r65.mem, p, mseed)
+			cplLoad(r65.mem, p, code, mseed)
 			c := r65.cpu
-			c.RK, c.PC = byte(p.base>>16), uint16(p.base)
-			c.M, c.X, c.E, c.Interrupt = p.m0, p.x0, 0, none65
-			c.RA, c.RX, c.RY, c.SP, c.RD, c.RDBR = regs.ra, regs.rx, regs.ry, regs.sp, regs.rd, regs.dbr
-			c.RAl, c.RAh, c.RXl, c.RYl = byte(regs.ra), byte(regs.ra>>8), byte(regs.rx), byte(regs.ry)
-			if p.x0 == 1 {
-				c.RX, c.RY = c.RX&0xFF, c.RY&0xFF
-			}
-			c.C, c.Z, c.I, c.D, c.V, c.N = regs.c, regs.z, regs.i, regs.d, regs.v, regs.n
-			c.Stopped, c.OnWDM, c.OnPC = false, nil, nil
+			cplSet65(c, p.base, p.m0, p.x0, regs, none65)
 			o := cplCheckRun(p, r65.mem, func() (pan bool, msg string) {
 				defer func() {
 					if e := recover(); e != nil {
@@ -517,7 +709,7 @@ func cplCmd(args []string) int {
 		}
 		// cpualt
 		{
-			cplLoad(ralt.mem, p, mseed)
+			cplLoad(ralt.mem, p, code, mseed)
 			c := ralt.cpu
 			c.RK, c.PC = byte(p.base>>16), uint16(p.base)
 			c.M, c.X, c.E, c.Interrupt = p.m0, p.x0, 0, noneAlt
